@@ -22,7 +22,7 @@ DEMO=$(ls "$SRC"/demo*.py 2>/dev/null | head -1)
 ( cd "$LOG" && PYTHONPATH=$WT PYTHONHASHSEED=0 timeout 300 /venv/bin/python "$DEMO" >demo_clean.out 2>&1; echo $? >demo_clean.rc )
 if ! git -C "$WT" apply "$SRC/patch.diff" 2>"$LOG/apply.err"; then echo "$ID $M: patch does not apply"; cat "$LOG/apply.err"; fi
 ( cd "$LOG" && PYTHONPATH=$WT PYTHONHASHSEED=0 timeout 300 /venv/bin/python "$DEMO" >demo_patched.out 2>&1; echo $? >demo_patched.rc )
-( cd "$WT" && timeout 900 /venv/bin/python -m pytest -ra -q -p no:cacheprovider --timeout=900 --continue-on-collection-errors 2>&1 | tail -1 >"$LOG/suite.out" )
+[ -n "${EVAL_FAST:-}" ] && echo "(suite skipped)" >"$LOG/suite.out" || ( cd "$WT" && timeout 900 /venv/bin/python -m pytest -ra -q -p no:cacheprovider --timeout=900 --continue-on-collection-errors 2>&1 | tail -1 >"$LOG/suite.out" )
 ( cd "$VERIF_DIR" && VERIF_REPO=$WT timeout 3000 ./check "$ID" --tier "$TIER" >"$LOG/check.out" 2>&1; echo $? >"$LOG/check.rc" )
 REPLAY=$(grep -o 'replay=[^ ]*' "$LOG/check.out" | head -1 | cut -d= -f2)
 [ -n "$REPLAY" ] && [ -f "$REPLAY" ] && cp "$REPLAY" "$LOG/replay.json"
